@@ -1361,6 +1361,25 @@ impl TypeChecker {
                 self.type_info.unionfind.set(b_var, a.clone());
                 a.clone()
             }
+            // Two written-out anonymous record types are the same type if
+            // they have the same field names with unifiable types. (The
+            // identity check above compares the source positions of the field
+            // names too, so it never holds for two separate annotations.)
+            //
+            // The fields must also be written in the same order: neither side
+            // is a variable that could adopt the other's field order, and the
+            // order determines the memory layout.
+            (Record(a_fields), Record(b_fields)) => {
+                if a_fields.len() != b_fields.len()
+                    || a_fields
+                        .iter()
+                        .zip(&b_fields)
+                        .any(|((a, _), (b, _))| a.node != b.node)
+                {
+                    return None;
+                }
+                Record(self.unify_fields(&a_fields, &b_fields)?)
+            }
             (RecordVar(var, fields), Name(name))
             | (Name(name), RecordVar(var, fields)) => {
                 let type_def = self.type_info.resolve_type_name(name.name);
